@@ -19,8 +19,8 @@ Decisions the text leaves open (chosen so that the unchanged code is right where
   the same as pairing the required parameters whenever no optional parameter precedes a required one
   (`Props/Callable.lean: pairing_readings_agree`).  A parameter is *required* iff it has no default (so `*args`,
   `**kwargs` and keyword-only parameters without default count as required).
-* D3 *unknown*: no annotation, and a declared `Any`, tell nothing: they are subtypes of the top types (`Any`, `object`) only
-  (docstring: `_is_subtype(Any, int)` is False).
+* D3 *unknown*: no annotation, and a declared `Any`, tell nothing: they are subtypes of the top types (`Any`, `object`, a Union
+  that lists `object`) only (docstring: `_is_subtype(Any, int)` is False).
 * D4 a *raw class* against a parametrised generic is compared on the class level only (`def f() -> list` conforms to
   `Callable[[], List[int]]`): the element type of a raw class is not declared, the class is what run time sees.
 * D5 generics are covariant in their parameter (docstring: `List[Child] ≤ List[Parent]`, `List[int] ≤ Iterable[int]`);
@@ -31,8 +31,8 @@ Decisions the text leaves open (chosen so that the unchanged code is right where
 
 Where the text does decide — a Union means "one of its members" (so a declared `bool` fits `Union[int, str]`, and a declared
 `Union[bool, int]` fits `int`), `List[int]` is a `list`, an async function is a `Callable[..., Any]`, a callable object is a
-callable whether or not it has a `__name__`, the spelling of the annotation is irrelevant — the spec follows the text and the
-code's deviations are the named regions of `Props/Callable.lean`.
+callable whether or not it has a `__name__`, the spelling of the annotation is irrelevant — the spec follows the text.  After the
+repairs F1-F5 the code agrees with all of this except for the one region that stays open (`Spec/CallableRegions.lean`).
 -/
 namespace PedVerif.Callable.Spec
 open PedVerif.Callable
@@ -42,6 +42,11 @@ def isTop (env : Env) : TA → Bool
   | .any => true
   | .cls d => d == env.object
   | _ => false
+
+/-- the top types as an *expected* type can spell them: also a Union that lists `object` -/
+def isTopU (env : Env) : TA → Bool
+  | .union _ ds => ds.any (fun d => d == env.object)
+  | t => isTop env t
 
 /-- the class a declared (non-Union) type guarantees at run time: D3 `Any ↦ object`, a generic ↦ its origin class -/
 def headCls (env : Env) : TA → Option ClsId
@@ -71,7 +76,7 @@ def subTy (env : Env) : TA → TA → Bool
 
 /-- an annotation as `inspect` reports it is a subtype of the expected type: D3 for "no annotation", `None` means `NoneType` -/
 def declSub (env : Env) : Ann → TA → Bool
-  | .empty, t => isTop env t
+  | .empty, t => isTopU env t
   | .none, t => subTy env (.cls env.noneCls) t
   | .ty s, t => subTy env s t
 
